@@ -191,6 +191,10 @@ func runC07(c *Ctx) {
 		}
 		if !e.Resolved {
 			why, ok := passThrough[base]
+			if ok && base == "vaxis.(*Vaxis).render" && !c07IsGraphemeArg(e.Fn.Pkg.TypesInfo, e.ArgExpr, 0) {
+				// the one payload render passes through is the text of a cell; anything else it writes must be a template
+				ok = false
+			}
 			if !ok {
 				why, ok = c07AppRequested[base]
 			}
@@ -248,6 +252,30 @@ func runC07(c *Ctx) {
 	c07Accessors(c, info)
 	c07Palette(c, info)
 	c07WidthDecision(c, info)
+}
+
+// c07IsGraphemeArg: e is the Grapheme field of a cell (possibly converted, or through a local defined once as it).
+func c07IsGraphemeArg(info *types.Info, e ast.Expr, depth int) bool {
+	if depth > 4 {
+		return false
+	}
+	switch t := unparen(e).(type) {
+	case *ast.SelectorExpr:
+		if s := info.Selections[t]; s != nil && s.Kind() == types.FieldVal && t.Sel.Name == "Grapheme" {
+			return true
+		}
+	case *ast.Ident:
+		if o := info.ObjectOf(t); o != nil {
+			if src := singleDefOf(info, o); src != nil {
+				return c07IsGraphemeArg(info, src, depth+1)
+			}
+		}
+	case *ast.CallExpr:
+		if tv, ok := info.Types[t.Fun]; ok && tv.IsType() && len(t.Args) == 1 {
+			return c07IsGraphemeArg(info, t.Args[0], depth+1)
+		}
+	}
+	return false
 }
 
 // NewImage selects the kitty / sixel encoders only under the matching graphics protocol level,
